@@ -887,10 +887,53 @@ def build(chk: Check) -> None:
     e3_doit_and_assumptions(chk, decorated)
     # attribute values ampform uses: pairwise distinct values have distinct images (instance of A-himg-inj)
     used = [None, "q^2", R"\rho", "N", 0, 1] + [c for c in decorated if K.nonsympy_fields(c)][:6]
+
+    # ... and the kinds of values a caller may pass (EnergyDependentWidth.phsp_factor takes any callable; attributes of user classes may be
+    # containers): functions that share module and qualified name, lambdas, bound methods of different objects, containers that differ
+    # in a value only. Equal images would make different expressions compare equal (SymPy's caches and term collection rely on ==).
+    def _closure(k):
+        def phsp(s, m1, m2):
+            return k * s
+
+        return phsp
+
+    class _Cfg:
+        def __init__(self, k):
+            self.k = k
+
+        def factor(self, s, m1, m2):
+            return self.k * s
+
+    used += [_closure(1), _closure(2), lambda s, a, b: s, lambda s, a, b: 2 * s, _Cfg(1).factor, _Cfg(2).factor,  # noqa: E731
+             {1: 2, 2: 3}, {1: 5, 2: 7}, {1: 2, 3: 3}, [1, 2], [1, 3], (1, 2), (1, 3), {"a": [1]}, {"a": [2]}]
     imgs = [D._get_hashable_object(v) for v in used]  # noqa: SLF001
-    clash = [(repr(a), repr(b)) for i, a in enumerate(used) for j, b in enumerate(used) if i < j and imgs[i] == imgs[j] and a != b]
-    chk.struct("O3.hashable_image.injective_on_used_attribute_values", not clash, F_HO, witness=clash, bounded=True,
-               replay=lambda m: {"reproduced": bool(clash), "input": clash[:1], "expected": "distinct images", "observed": "equal images"})
+    clash = [(repr(a), repr(b)) for i, a in enumerate(used) for j, b in enumerate(used) if i < j and imgs[i] == imgs[j] and a is not b and a != b]
+    def rep_clash(m=None):
+        """Consequence on real expressions: two instances that differ in the attribute only must stay two expressions under xreplace."""
+        from typing import Any as _Any
+
+        from ampform.sympy import argument, unevaluated
+
+        @unevaluated
+        class Holder(sp.Expr):
+            x: _Any
+            attr: _Any = argument(sympify=False)
+
+            def evaluate(self):
+                return self.x
+
+        xs = sp.Symbol("x")
+        for i, a in enumerate(used):
+            for j, b in enumerate(used):
+                if i < j and a is not b and a != b:
+                    ha, hb = Holder(xs, attr=a), Holder(xs, attr=b)
+                    got = sp.Tuple(ha, hb).xreplace({hb: sp.Integer(0)})
+                    if ha == hb or got.args[0] == 0:
+                        return {"reproduced": True, "input": f"Tuple(Holder(x, attr={a!r}), Holder(x, attr={b!r})).xreplace({{second: 0}})", "expected": "(Holder(x, attr=first), 0)",
+                                "observed": f"{got}; first == second is {ha == hb}; images {D._get_hashable_object(a)!r} / {D._get_hashable_object(b)!r}"}  # noqa: SLF001
+        return {"reproduced": False, "note": "instances that differ in a non-SymPy attribute stay different expressions"}
+
+    chk.struct("O3.hashable_image.injective_on_used_attribute_values", not clash, F_HO, witness=clash, bounded=True, replay=rep_clash)
     from ampform.dynamics.phasespace import PhaseSpaceFactor
 
     s_, a_, b_ = sp.symbols("s m1 m2")
